@@ -200,7 +200,8 @@ impl RK23 {
             }
 
             // Check for last step adjustment
-            if (x + h - xend) * posneg > 0.0 {
+            let last = (x + h - xend) * posneg > 0.0;
+            if last {
                 h = xend - x;
             }
 
@@ -248,7 +249,8 @@ impl RK23 {
                 ye.copy_from_slice(&y);
                 y.copy_from_slice(&yt);
                 xold = x;
-                x += h;
+                // A shortened last step ends on xend itself (x + h can round an ulp off it)
+                x = if last { xend } else { x + h };
 
                 // Prepare dense output
                 if self.dense_output && solout.is_some() {
